@@ -5,8 +5,8 @@ from . import base
 ID = 'C01'
 LEVEL = 'exploration'
 PLAN = {
-    'quick': [('synth', 24000), ('synth_cli', 6000)],
-    'thorough': [('synth', 900000), ('synth_cli', 200000)],
+    'quick': [('synth', 24000), ('synth_cli', 6000), ('shipped', 960)],
+    'thorough': [('synth', 900000), ('synth_cli', 200000), ('shipped', 40000)],
 }
 DEADLINE = {'quick': 200, 'thorough': 3300}
 PROBES = ['line-reattempted', 'refusal-with-waiters-outstanding', 'abort-after-prompts',
@@ -71,8 +71,8 @@ def evaluate(case, engine, acc=None):
 
 def run_one(engine, seed, acc, tier):
     if engine == 'shipped':
-        from . import shipped_c01
-        return shipped_c01.run_one(seed, acc, tier)
+        from . import shipped_props
+        return shipped_props.run_one(ID, seed, acc, tier)
     case = gen.gen_case(seed)
     if engine == 'synth_cli':
         case['cli'] = cli_script(case, seed)
@@ -82,12 +82,19 @@ def run_one(engine, seed, acc, tier):
 
 def replay(rec):
     if rec.get('engine') == 'shipped':
-        from . import shipped_c01
-        return shipped_c01.replay(rec)
+        from . import shipped_props
+        return shipped_props.replay(ID, rec)
     return evaluate(rec['case'], rec.get('engine'))
 
 
-minimise = base.make_minimiser(lambda c, e: evaluate(c, e))
+_min_synth = base.make_minimiser(lambda c, e: evaluate(c, e))
+
+
+def minimise(v):
+    if str(v.get('engine', '')).startswith('shipped'):
+        from . import shipped_props
+        return shipped_props.minimise(ID, v)
+    return _min_synth(v)
 
 
 def coverage(accs, total):
